@@ -66,7 +66,7 @@ async def _prog(mpc):
     return at_start, prf
 
 
-def run_setup(m, t, seed, mode='random', chunk_mode='mixed', no_prss=False):
+def run_setup(m, t, seed, mode='random', chunk_mode='mixed', no_prss=False, t_initial=None):
     """One complete set-up on the real code.  Returns dict with tables, tokens, events, wire."""
     events, chunks = [], {}
     orig = asyncoro.MessageExchanger.data_received
@@ -80,13 +80,13 @@ def run_setup(m, t, seed, mode='random', chunk_mode='mixed', no_prss=False):
             events.append((self.peer_pid, self.runtime.pid, chunks[id(self)][:-1]))
 
     out = {'m': m, 't': t, 'seed': seed, 'mode': mode, 'chunk_mode': chunk_mode, 'no_prss': no_prss,
-           'error': None}
+           'error': None, 't_initial': t_initial}
     asyncoro.MessageExchanger.data_received = wrapped
     simnet.SECRETS.log = []
     try:
-        net = SimNet(m, t, no_prss=no_prss, seed=seed, sched=Scheduler(seed, mode, chunk_mode=chunk_mode))
+        net = SimNet(m, t, no_prss=no_prss, seed=seed, sched=Scheduler(seed, mode, chunk_mode=chunk_mode), t_initial=t_initial)
         toks = {i: [] for i in range(m)}
-        for pid, kind, arg, val in simnet.SECRETS.log:
+        for pid, kind, arg, val in simnet.SECRETS.log[net.token_start:]:
             if kind == 'token_bytes' and 0 <= pid < m:
                 toks[pid].append(bytes(val))
         out['tokens'] = toks
@@ -430,7 +430,7 @@ def single_cut_sweep(ctx):
 # ---------------------------------------------------------------------------------------------
 def replay_dict(r, probs):
     return {'kind': 'setup', 'm': r['m'], 't': r['t'], 'seed': r['seed'], 'mode': r['mode'],
-            'chunk_mode': r['chunk_mode'], 'no_prss': r['no_prss'],
+            'chunk_mode': r['chunk_mode'], 'no_prss': r['no_prss'], 't_initial': r.get('t_initial'),
             'expected': 'every (m-t)-subset key held by exactly its members, same 16-byte key drawn by the lowest member; '
                         'every t-coalition lacks a key; no key on a wire to a non-member',
             'observed': probs[:5]}
@@ -438,9 +438,12 @@ def replay_dict(r, probs):
 
 def explore(ctx, cases, tag):
     reqs, impl = [], []
-    for (m, t, seed, mode, cm, no_prss) in cases:
-        r = run_setup(m, t, seed, mode, cm, no_prss)
-        key = (m, t, no_prss, tuple((j, i, tuple(c)) for j, i, c in r.get('events', [])))
+    for (m, t, seed, mode, cm, no_prss, *rest) in cases:
+        t_initial = rest[0] if rest else None
+        r = run_setup(m, t, seed, mode, cm, no_prss, t_initial)
+        if t_initial is not None:
+            ctx.count('threshold-reassigned-before-start')
+        key = (m, t, t_initial, no_prss, tuple((j, i, tuple(c)) for j, i, c in r.get('events', [])))
         ctx.case(key, nontrivial=m >= 2)
         ctx.count(f'm={m}')
         ctx.count(f'sched={mode}/{cm}')
@@ -466,6 +469,10 @@ def make_cases(ctx, rng, max_m, per_cfg, min_m=1):
             cases.append((m, t, rng.randrange(1 << 30), MODES[k % len(MODES)] if k < len(MODES) else rng.choice(MODES),
                           CHUNKS[k % 3] if k < 3 else rng.choice(CHUNKS), False))
         cases.append((m, t, rng.randrange(1 << 30), rng.choice(MODES), rng.choice(CHUNKS), True))
+        # mpc.threshold assigned after the runtime was created with another threshold (demos/parallelsort.py does this)
+        others = [t0 for t0 in range(m) if 2 * t0 < m and t0 != t]
+        if others and m >= 2:
+            cases.append((m, t, rng.randrange(1 << 30), rng.choice(MODES), rng.choice(CHUNKS), False, rng.choice(others)))
     return cases
 
 
@@ -513,7 +520,7 @@ def replay(ctx, data):
     if data.get('kind') != 'setup':
         return True, 'not a set-up replay (nothing to execute)'
     r = run_setup(data['m'], data['t'], data['seed'], data.get('mode', 'random'), data.get('chunk_mode', 'mixed'),
-                  data.get('no_prss', False))
+                  data.get('no_prss', False), data.get('t_initial'))
     probs = oracle(r)
     if probs:
         return False, f"m={data['m']} t={data['t']} seed={data['seed']}: {probs[:3]}"
